@@ -88,6 +88,12 @@ theorem sendDataC_quiet (capf : Stream → Nat → Nat) (a : Stream) (len m : Na
 theorem sendData_quiet (a : Stream) (len m : Nat) : Quiet a (a.sendData len m).1 := by
   rw [sendDataC.eq]; exact sendDataC_quiet _ _ _ _
 
+theorem sendData_quiet' (a : Stream) (len m : Nat) : ∃ b w f, a.sendData len m = (b, w, f) ∧ Quiet a b := by
+  have := sendData_quiet a len m
+  rcases h : a.sendData len m with ⟨b, w, f⟩
+  rw [h] at this
+  exact ⟨b, w, f, rfl, this⟩
+
 theorem decContentLength_quiet {a b : Stream} {n : Nat} (h : a.decContentLength n = some b) : Quiet a b := by
   unfold Stream.decContentLength at h
   split at h
